@@ -203,6 +203,8 @@ def run(ctx):  # noqa: C901, PLR0912, PLR0915
            fi=pc)
     # the GetMdib answer the consumer initialises from states the version its content has (read inside one lock region):
     # content of version N labelled N+1 makes reload_all discard the buffered report N+1 as outdated
+    from .c01 import reload_replay_rules
+    reload_replay_rules(ctx, 'C06.R4')   # reports that arrive during the (re)load are neither lost nor applied twice
     from .c07 import snapshot_providers
     snapshot_providers(ctx, 'C06.R4')
     ck = repo.method(CM, '_check_sequence_or_instance_id_changed')
